@@ -36,8 +36,8 @@ type Link struct {
 	s2cEOF bool
 	rdErr  error
 
-	c2s       []byte
-	srvPos    int // bytes of c2s consumed by the server
+	c2s       []byte // written by the client, not yet read by the server
+	srvBuf    []byte // read by the server, not yet framed into lines
 	Writes    []WriteRec
 	AllC2S    []byte // everything the client ever wrote successfully
 	ClientEnd bool   // client called Close
@@ -172,10 +172,10 @@ func (c *Conn) Write(p []byte) (int, error) {
 		l.S.Logf("net%d write#%d -> injected error after %d bytes", l.ID, l.WritesN, n)
 		return n, &net.OpError{Op: "write", Net: "sim", Err: ErrWrite}
 	}
-	if l.Window > 0 && len(l.c2s)-l.srvPos >= l.Window {
+	if l.Window > 0 && len(l.c2s) >= l.Window {
 		l.S.Count("fault.write-backpressure")
 		simrt.Block("simnet.Write", "socket write (server not reading)", func() bool {
-			return len(l.c2s)-l.srvPos < l.Window || l.ClientEnd || l.rdErr != nil
+			return len(l.c2s) < l.Window || l.ClientEnd || l.rdErr != nil
 		})
 		if l.ClientEnd {
 			return 0, &net.OpError{Op: "write", Net: "sim", Err: ErrClosed}
@@ -248,51 +248,71 @@ func (l *Link) Reset() {
 // Down reports whether the server side has ended the link.
 func (l *Link) Down() bool { return l.s2cEOF || l.rdErr != nil }
 
+// pull moves what the client has written into the server's own buffer (the
+// server "reads" bytes, which frees the write window, and frames lines itself).
+func (l *Link) pull() {
+	if len(l.c2s) > 0 {
+		l.srvBuf = append(l.srvBuf, l.c2s...)
+		l.c2s = l.c2s[:0]
+	}
+}
+
 // TryRecvLine returns the next complete line the client wrote, if any.
 func (l *Link) TryRecvLine() (string, bool) {
-	rest := l.c2s[l.srvPos:]
-	i := strings.IndexByte(string(rest), '\n')
+	l.pull()
+	i := strings.IndexByte(string(l.srvBuf), '\n')
 	if i < 0 {
 		return "", false
 	}
-	line := string(rest[:i+1])
-	l.srvPos += i + 1
-	if l.srvPos > 1<<16 {
-		l.c2s = append([]byte(nil), l.c2s[l.srvPos:]...)
-		l.srvPos = 0
-	}
+	line := string(l.srvBuf[:i+1])
+	l.srvBuf = append(l.srvBuf[:0], l.srvBuf[i+1:]...)
 	return line, true
 }
 
-// HasLine reports whether a complete line is waiting.
+// HasLine reports whether a complete line is waiting (does not read).
 func (l *Link) HasLine() bool {
-	return strings.IndexByte(string(l.c2s[l.srvPos:]), '\n') >= 0
+	return strings.IndexByte(string(l.srvBuf), '\n') >= 0 || strings.IndexByte(string(l.c2s), '\n') >= 0
 }
 
 // RecvLine blocks until the client has written a complete line (returned with
 // its terminator) or closed the connection.
 func (l *Link) RecvLine() (string, bool) {
-	if !l.HasLine() && !l.ClientEnd {
+	for {
+		if ln, ok := l.TryRecvLine(); ok {
+			return ln, true
+		}
+		if l.ClientEnd {
+			return "", false
+		}
 		simrt.Block("simnet.RecvLine", "server waiting for a client line", func() bool {
-			return l.HasLine() || l.ClientEnd
+			return len(l.c2s) > 0 || l.ClientEnd
 		})
 	}
-	return l.TryRecvLine()
 }
 
 // RecvLineFor is RecvLine with a simulated-time limit.
 func (l *Link) RecvLineFor(d time.Duration) (string, bool) {
-	if !l.HasLine() && !l.ClientEnd {
-		simrt.BlockFor("simnet.RecvLine", "server waiting for a client line", d, func() bool {
-			return l.HasLine() || l.ClientEnd
+	end := l.S.Now() + d
+	for {
+		if ln, ok := l.TryRecvLine(); ok {
+			return ln, true
+		}
+		if l.ClientEnd {
+			return "", false
+		}
+		left := end - l.S.Now()
+		if left <= 0 {
+			return "", false
+		}
+		simrt.BlockFor("simnet.RecvLine", "server waiting for a client line", left, func() bool {
+			return len(l.c2s) > 0 || l.ClientEnd
 		})
 	}
-	return l.TryRecvLine()
 }
 
 // Unread returns the bytes written by the client that the server has not
-// consumed (possibly a partial line).
-func (l *Link) Unread() string { return string(l.c2s[l.srvPos:]) }
+// framed into a line yet (possibly a partial line).
+func (l *Link) Unread() string { return string(l.srvBuf) + string(l.c2s) }
 
 // ---- dialer ----------------------------------------------------------------
 
